@@ -4,14 +4,63 @@
 // Child module of parquet/src/bloom_filter/mod.rs.
 use super::*;
 
+// Block::mask(x) multiplies x by eight 32-bit salts; insert-then-check computes it several times and SAT has to
+// re-prove the equality of the multiplier circuits (no verdict in 300 s). The membership obligations therefore
+// replace `mask` by an ABSTRACTION of an arbitrary deterministic function with the one property the filter
+// needs (exactly one bit per word): two symbolic masks, selected by comparing the argument with the two hashes
+// the harness uses. The real `mask` is decided separately (c07_block_mask_one_bit_per_word).
+static mut MASK_H: u32 = 0;
+static mut MASK_OF_H: [u32; 8] = [0; 8];
+static mut MASK_OF_OTHER: [u32; 8] = [0; 8];
+fn abstract_mask(x: u32) -> Block {
+    unsafe { if x == MASK_H { Block(MASK_OF_H) } else { Block(MASK_OF_OTHER) } }
+}
+fn any_one_hot_block() -> [u32; 8] {
+    let sh: [u8; 8] = kani::any();
+    let mut m = [0u32; 8];
+    let mut i = 0;
+    while i < 8 {
+        kani::assume(sh[i] < 32);
+        m[i] = 1u32 << sh[i];
+        i += 1;
+    }
+    m
+}
+fn setup_abstract_mask(h: u32) {
+    unsafe {
+        MASK_H = h;
+        MASK_OF_H = any_one_hot_block();
+        MASK_OF_OTHER = any_one_hot_block();
+    }
+}
+
 //@ tier: quick
-//@ functions: parquet::bloom_filter::Block::{mask, insert, check}
-//@ bound: one block with arbitrary contents, arbitrary 32-bit hash: after insert(h), check(h); insert only sets bits; mask sets exactly one bit per word; unwind 10
+//@ functions: parquet::bloom_filter::Block::mask
+//@ bound: every 32-bit hash: the real mask sets exactly one bit in each of the eight words (the only property of the salted multiplication the membership obligations rely on); unwind 10
 #[kani::proof]
 #[kani::unwind(10)]
+fn c07_block_mask_one_bit_per_word() {
+    let h: u32 = kani::any();
+    let m = Block::mask(h);
+    let i: usize = kani::any();
+    kani::assume(i < 8);
+    assert!(m[i].count_ones() == 1, "exactly one bit per word");
+    kani::cover!(m[i] == 1 << 31);
+    kani::cover!(m[i] == 1);
+}
+
+//@ tier: quick
+//@ functions: parquet::bloom_filter::Block::{insert, check}
+//@ bound: one block with arbitrary contents, arbitrary 32-bit hashes h and g: after insert(h), check(h); a later insert(g) keeps check(h); insert only sets bits; unwind 10
+//@ stub: Block::mask -> arbitrary deterministic one-bit-per-word function (see above)
+#[kani::proof]
+#[kani::unwind(10)]
+#[kani::stub(Block::mask, abstract_mask)]
 fn c07_block_insert_then_check() {
     let mut blk = Block(kani::any());
     let h: u32 = kani::any();
+    let g: u32 = kani::any();
+    setup_abstract_mask(h);
     let i: usize = kani::any();
     kani::assume(i < 8);
     let before = blk[i];
@@ -19,19 +68,24 @@ fn c07_block_insert_then_check() {
     assert!(blk.check(h), "no false negative right after insert");
     assert!(blk[i] & before == before, "insert only sets bits");
     assert!((blk[i] ^ before).count_ones() <= 1, "at most one new bit per word");
+    blk.insert(g);
+    assert!(blk.check(h) && blk.check(g), "later inserts keep earlier members");
     kani::cover!(before == 0 && blk[i] != 0);
-    kani::cover!(blk[i] == before, "bit was already set");
+    kani::cover!(h != g);
 }
 
 //@ tier: quick
-//@ functions: parquet::bloom_filter::Block::{check, mask}, BitOr / BitOrAssign for Block
+//@ functions: parquet::bloom_filter::Block::check, BitOr / BitOrAssign for Block
 //@ bound: arbitrary block, arbitrary extra bits OR-ed in (what later inserts and fold_n do), arbitrary hash: check(h) is monotone - once true it stays true; unwind 10
+//@ stub: Block::mask -> arbitrary deterministic one-bit-per-word function
 #[kani::proof]
 #[kani::unwind(10)]
+#[kani::stub(Block::mask, abstract_mask)]
 fn c07_block_check_is_monotone() {
     let blk = Block(kani::any());
     let extra = Block(kani::any());
     let h: u32 = kani::any();
+    setup_abstract_mask(h);
     let was = blk.check(h);
     let merged = blk | extra;
     let mut assigned = blk;
@@ -72,8 +126,10 @@ fn c07_sbbf_index_fold_lemma() {
 //@ tier: quick
 //@ functions: parquet::bloom_filter::Sbbf::{insert_hash, check_hash, fold_n, hash_to_block_index}
 //@ bound: 4 arbitrary blocks, one arbitrary 64-bit hash inserted, then fold_n(1) or fold_n(2): the hash is still found (no false negative after folding); per-index: folded block = OR of its group; unwind 10
+//@ stub: Block::mask -> arbitrary deterministic one-bit-per-word function
 #[kani::proof]
 #[kani::unwind(10)]
+#[kani::stub(Block::mask, abstract_mask)]
 fn c07_sbbf_fold_keeps_members() {
     let b0 = Block(kani::any());
     let b1 = Block(kani::any());
@@ -81,6 +137,7 @@ fn c07_sbbf_fold_keeps_members() {
     let b3 = Block(kani::any());
     let mut f = Sbbf(vec![b0, b1, b2, b3]);
     let h: u64 = kani::any();
+    setup_abstract_mask(h as u32);
     f.insert_hash(h);
     assert!(f.check_hash(h), "member found before folding");
     let pre = [f.0[0], f.0[1], f.0[2], f.0[3]];
